@@ -278,6 +278,52 @@ int main() {
 """)
 
 
+# Programs for a build WITHOUT I/O support: the single-file build gets the `--noio` package, the
+# multi-header build simply does not include au/io.hh.  What such programs do instead of using
+# the library's stream inserters must keep working alike.
+NOIO_PROGRAMS = set()
+
+
+def _p_noio(name, body):
+    _p(name, body, multi_includes=["au/au.hh"])
+    NOIO_PROGRAMS.add(name)
+
+
+_p_noio("noio_own_printer", r"""
+#include <iostream>
+#include <sstream>
+template <typename U, typename R>
+std::ostream &operator<<(std::ostream &os, const au::Quantity<U, R> &q) {
+    return os << q.in(U{}) << " [" << au::unit_label(U{}) << "]";
+}
+int main() {
+    std::ostringstream oss;
+    oss << seconds(90) << " / " << minutes(1.5);
+    std::printf("%s\n", oss.str().c_str());
+    return 0;
+}
+""")
+
+_p_noio("noio_unitless_stream", r"""
+#include <iostream>
+#include <sstream>
+int main() {
+    std::ostringstream oss;
+    oss << make_quantity<UnitProductT<>>(0.75) << ' ' << (seconds(6.0) / seconds(4.0));
+    std::printf("%s\n", oss.str().c_str());
+    return 0;
+}
+""")
+
+_p_noio("noio_streaming_is_rejected", r"""
+#include <iostream>
+int main() {
+    std::cout << seconds(3) << std::endl;
+    return 0;
+}
+""")
+
+
 def names():
     return sorted(PROGRAMS)
 
